@@ -1,5 +1,248 @@
-//! Sequential checks (C14, C15, C19, C20): filled in later.
-pub fn main(_args: &[String]) {
-    eprintln!("seq: not implemented yet");
-    std::process::exit(2);
+//! Sequential law checks on the real pointer kinds (C15): executes the programs enumerated by TLC from
+//! spec/RefCntLaws.tla on Arc / Rc / Option<..> / Weak for several pointee layouts and compares the counts,
+//! null-ness and pointer identities the laws predict with what the implementations do.
+//! Also: the auto-trait table (C19) and the serde relation (C20).
+
+use std::io::BufRead;
+
+use arc_swap::RefCnt;
+use serde_json::{json, Value};
+
+#[derive(Default, Clone, Debug, serde::Serialize, serde::Deserialize, PartialEq)]
+pub struct Zst;
+#[repr(align(64))]
+#[derive(Default, Clone, Debug)]
+pub struct A64(#[allow(dead_code)] u8);
+
+/// The family-specific part: how to make handles of the kind under test, how to observe the counts.
+trait Fam {
+    type K: RefCnt;
+    /// a fresh allocation: (owner kept by the test, observer weak)
+    fn name() -> &'static str;
+}
+
+macro_rules! run_family {
+    ($fname:ident, $strong:ident, $weak:ident, $kindname:expr) => {
+        /// kind: "strong" (option: whether the handle type is Option<..>) or "weak"
+        fn $fname<T: Default + 'static>(prog: &Value, option: bool, tname: &str) -> Result<usize, String> {
+            use std::mem::ManuallyDrop;
+            let kind = prog["kind"].as_str().unwrap();
+            let witness = prog["witness"].as_i64().unwrap() == 1;
+            let extra_weak = prog["extra_weak"].as_i64().unwrap() as usize;
+            let init: Vec<&str> = prog["init"].as_array().unwrap().iter().map(|x| x.as_str().unwrap()).collect();
+            let base: $strong<T> = $strong::new(T::default());
+            let canon = $strong::as_ptr(&base) as *mut T;
+            // test-held weak references; the first one is the observer
+            let weaks: Vec<$weak<T>> = (0..extra_weak).map(|_| $strong::downgrade(&base)).collect();
+            let obs = weaks[0].clone();
+            drop(weaks.get(0)); // (no-op: keep the vector alive)
+            // the observer itself is one more weak reference than the model counts
+            let observe = |obs: &$weak<T>| -> (usize, usize) {
+                let s = obs.strong_count();
+                let w = obs.weak_count();
+                (s, if s > 0 { w - 1 } else { 0 })
+            };
+            let mut steps = 0usize;
+            macro_rules! body {
+                ($K:ty, $mk_p:expr, $mk_e:expr, $is_weak:expr, $upgrade:expr) => {{
+                    let mut hs: Vec<Option<$K>> = Vec::new();
+                    for h in init.iter() {
+                        hs.push(Some(if *h == "p" { $mk_p(&base) } else { $mk_e() }));
+                    }
+                    let mut rs: Vec<Option<*mut <$K as RefCnt>::Base>> = Vec::new();
+                    let mut wit: Option<$strong<T>> = if witness { Some(base.clone()) } else { None };
+                    drop(base);
+                    if !witness && !$is_weak && !init.contains(&"p") {
+                        return Ok(0); // nothing keeps the target alive and nothing of the kind points to it
+                    }
+                    for (k, op) in prog["ops"].as_array().unwrap().iter().enumerate() {
+                        let name = op["op"].as_str().unwrap();
+                        let at = |f: &str| op[f].as_u64().unwrap() as usize - 1;
+                        let fail = |what: String| -> String {
+                            format!("{} {} pointee={} step {} ({}): {}", $kindname, if option { "Option" } else { "plain" }, tname, k + 1, name, what)
+                        };
+                        match name {
+                            "into_ptr" => {
+                                let h = hs[at("h")].take().unwrap();
+                                let expect_null = op["null"].as_bool().unwrap();
+                                let as_p = <$K as RefCnt>::as_ptr(&h);
+                                let p = <$K as RefCnt>::into_ptr(h);
+                                if p != as_p {
+                                    return Err(fail("as_ptr differs from what into_ptr gives".into()));
+                                }
+                                if p.is_null() != expect_null {
+                                    return Err(fail(format!("null-ness {} expected {}", p.is_null(), expect_null)));
+                                }
+                                if !p.is_null() && p as *mut T != canon {
+                                    return Err(fail("raw pointer is not the address of the pointee".into()));
+                                }
+                                rs.push(Some(p));
+                            }
+                            "from_ptr" => {
+                                let p = rs[at("r")].take().unwrap();
+                                let h = unsafe { <$K as RefCnt>::from_ptr(p) };
+                                if <$K as RefCnt>::as_ptr(&h) != p {
+                                    return Err(fail("round trip changed the identity".into()));
+                                }
+                                hs.push(Some(h));
+                            }
+                            "as_ptr" => {
+                                let h = hs[at("h")].as_ref().unwrap();
+                                let p = <$K as RefCnt>::as_ptr(h);
+                                let expect_null = op["null"].as_bool().unwrap();
+                                if p.is_null() != expect_null {
+                                    return Err(fail(format!("null-ness {} expected {}", p.is_null(), expect_null)));
+                                }
+                                if !p.is_null() && p as *mut T != canon {
+                                    return Err(fail("as_ptr is not the address of the pointee".into()));
+                                }
+                            }
+                            "inc" => {
+                                let h = hs[at("h")].as_ref().unwrap();
+                                let p = <$K as RefCnt>::inc(h);
+                                if p != <$K as RefCnt>::as_ptr(h) {
+                                    return Err(fail("inc returned another pointer than as_ptr".into()));
+                                }
+                                rs.push(Some(p));
+                            }
+                            "dec" => {
+                                let p = rs[at("r")].take().unwrap();
+                                unsafe { <$K as RefCnt>::dec(p) };
+                            }
+                            "clone" => {
+                                let h = hs[at("h")].as_ref().unwrap().clone();
+                                hs.push(Some(h));
+                            }
+                            "drop" => {
+                                drop(hs[at("h")].take());
+                            }
+                            "drop_witness" => {
+                                drop(wit.take());
+                            }
+                            "upgrade" => {
+                                let h = hs[at("h")].as_ref().unwrap();
+                                let ok: bool = $upgrade(h);
+                                if ok != op["ok"].as_bool().unwrap() {
+                                    return Err(fail(format!("upgrade succeeded: {} expected {}", ok, op["ok"])));
+                                }
+                            }
+                            _ => return Err(fail("unknown op".into())),
+                        }
+                        let got = observe(&obs);
+                        let want = (op["strong"].as_u64().unwrap() as usize, op["weak"].as_u64().unwrap() as usize);
+                        if got != want {
+                            return Err(fail(format!("counts (strong, weak) = {:?}, the laws predict {:?}", got, want)));
+                        }
+                        steps += 1;
+                    }
+                    // release what is left so that nothing leaks between programs
+                    for r in rs.iter_mut() {
+                        if let Some(p) = r.take() {
+                            unsafe { <$K as RefCnt>::dec(p) };
+                        }
+                    }
+                    drop(hs);
+                    drop(wit);
+                    let _ = ManuallyDrop::new(0);
+                    let end = observe(&obs);
+                    if end.0 != 0 {
+                        return Err(format!("{} pointee={}: target still alive after everything was released: {:?}", $kindname, tname, end));
+                    }
+                }};
+            }
+            if kind == "strong" {
+                if option {
+                    body!(Option<$strong<T>>, |b: &$strong<T>| Some(b.clone()), || None::<$strong<T>>, false, |_h: &Option<$strong<T>>| true);
+                } else {
+                    if init.contains(&"e") {
+                        return Ok(0);
+                    }
+                    body!($strong<T>, |b: &$strong<T>| b.clone(), || -> $strong<T> { unreachable!() }, false, |_h: &$strong<T>| true);
+                }
+            } else {
+                body!($weak<T>, |b: &$strong<T>| $strong::downgrade(b), || $weak::<T>::new(), true, |h: &$weak<T>| h.upgrade().is_some());
+            }
+            drop(weaks);
+            Ok(steps)
+        }
+    };
+}
+
+use std::rc::{Rc, Weak as RcWeak};
+use std::sync::{Arc, Weak};
+run_family!(run_sync, Arc, Weak, "Arc-family");
+run_family!(run_rc, Rc, RcWeak, "Rc-family");
+
+fn laws(path: &str) -> Value {
+    let f = std::fs::File::open(path).expect("open laws");
+    let mut programs = 0usize;
+    let mut runs = 0usize;
+    let mut steps = 0usize;
+    let mut failures: Vec<Value> = Vec::new();
+    for line in std::io::BufReader::new(f).lines() {
+        let line = line.unwrap();
+        if line.trim().is_empty() {
+            continue;
+        }
+        let prog: Value = serde_json::from_str(&line).expect("law json");
+        programs += 1;
+        macro_rules! each {
+            ($f:ident, $T:ty, $tn:expr) => {
+                for option in [false, true] {
+                    if prog["kind"] == "weak" && option {
+                        continue;
+                    }
+                    let r = std::panic::catch_unwind(std::panic::AssertUnwindSafe(|| $f::<$T>(&prog, option, $tn)));
+                    runs += 1;
+                    match r {
+                        Ok(Ok(n)) => steps += n,
+                        Ok(Err(e)) => {
+                            if failures.len() < 20 {
+                                failures.push(json!({"why": e, "program": prog}));
+                            }
+                        }
+                        Err(_) => {
+                            if failures.len() < 20 {
+                                failures.push(json!({"why": format!("panic in {} pointee={}", stringify!($f), $tn), "program": prog}));
+                            }
+                        }
+                    }
+                }
+            };
+        }
+        each!(run_sync, usize, "usize");
+        each!(run_sync, Zst, "zst");
+        each!(run_sync, A64, "align64");
+        each!(run_sync, String, "String");
+        each!(run_rc, usize, "usize");
+        each!(run_rc, Zst, "zst");
+        each!(run_rc, A64, "align64");
+        each!(run_rc, String, "String");
+    }
+    // the marker of an empty debt slot is not a possible pointer of any supported kind
+    let mut none_collisions = 0usize;
+    for _ in 0..64 {
+        let a = Arc::new(Zst);
+        let b = Arc::new(Zst);
+        let pa = <Arc<Zst> as RefCnt>::as_ptr(&a) as usize;
+        let pb = <Arc<Zst> as RefCnt>::as_ptr(&b) as usize;
+        if pa == pb || pa == arc_swap::verif::DEBT_NONE || pa == 0 {
+            none_collisions += 1;
+        }
+    }
+    json!({"programs": programs, "runs": runs, "steps": steps, "failures": failures, "zst_collisions": none_collisions})
+}
+
+pub fn main(args: &[String]) {
+    std::panic::set_hook(Box::new(|_| {}));
+    let out = match args.first().map(|s| s.as_str()) {
+        Some("laws") => laws(&args[1]),
+        Some("autotraits") => crate::traits::table(),
+        Some("serde") => crate::serde_check::run(&args[1]),
+        _ => {
+            eprintln!("usage: asv seq laws FILE | autotraits | serde FILE");
+            std::process::exit(2);
+        }
+    };
+    println!("{}", out);
 }
